@@ -698,7 +698,9 @@ func TestVerifC30Sequential(t *testing.T) {
 	col := kit.For(t, "C30")
 	kit.Check(t, "C30", func(rt *rapid.T, k *kit.Case) {
 		nodeID := rapid.SampledFrom([]uint64{0, 3, 1023}).Draw(rt, "node")
-		ops := rapid.SliceOfN(verifC30OpGen(), 1, 60).Draw(rt, "ops")
+		// uniform length (rapid's own slice lengths are heavily biased to short)
+		nOps := rapid.IntRange(1, 60).Draw(rt, "nOps")
+		ops := rapid.SliceOfN(verifC30OpGen(), nOps, nOps).Draw(rt, "ops")
 		ids, err := newNodeMessageIDs(nodeID)
 		if err != nil {
 			rt.Fatalf("newNodeMessageIDs: %v", err)
